@@ -202,6 +202,20 @@ func runC11(p *eng.Prog, r *eng.Report, tier string) {
 				continue
 			}
 			c.dom("C11.4", nd, rs, "success return [IDNA]", []string{"eq(golang.org/x/net/idna.Profile.ToUnicode[var:golang.org/x/net/idna.Display](*)#1,nil)"})
+			// C11.10 the value returned is a fixed point of the mapping: IDNA validates
+			// the labels as given and maps afterwards, so a second pass over the
+			// result must succeed and leave it unchanged (otherwise the address that
+			// is returned does not parse to itself)
+			{
+				val := nd.Norm(rs.Results[0], &pt)
+				tu := "golang.org/x/net/idna.Profile.ToUnicode[var:golang.org/x/net/idna.Display](" + val + ")"
+				okFix, why := g.DominatedAny(pt, []string{"eq(" + tu + "#0," + val + ")", "eq(" + val + "," + tu + "#0)"})
+				okErr, _ := g.Dominated(pt, "eq("+tu+"#1,nil)")
+				if okFix && !okErr {
+					why = "the error of the second pass is not tested"
+				}
+				c.r.Check("C11.10", nd, "success return [fixed point of the mapping]", "G: the domainpart that is returned was mapped again and came back unchanged and without error", rs.Pos(), okFix && okErr, why)
+			}
 			c.dom("C11.4", nd, rs, "success return [length >= 1]", []string{"!lt(builtin.len(*),1)"})
 			c.dom("C11.4", nd, rs, "success return [length <= 1023]", []string{"!lt(1023,builtin.len(*))"})
 		}
@@ -493,6 +507,14 @@ func runC11(p *eng.Prog, r *eng.Report, tier string) {
 				rp, _ := g.Where(rs)
 				if g.RetKindOf(rs) == eng.RetError || !g.Reachable(g.After(cp), rp, nil, nil) {
 					continue
+				}
+				// a mapping whose result is only compared with the value that is
+				// returned (the fixed-point pass of C11.10) maps nothing
+				cn := nd.Norm(cl, &cp) + "#0"
+				if len(rs.Results) > 0 && !strings.Contains(nd.Norm(rs.Results[0], &rp), cn) {
+					if okf, _ := g.DominatedAny(rp, []string{"eq(" + cn + ",*)", "eq(*," + cn + ")"}); okf {
+						continue
+					}
 				}
 				n++
 				c.r.Check("C11.4", nd, "trailing dot stripped from the mapped domainpart", "O: every success path after the IDNA mapping strips trailing label separators from the MAPPED value", rs.Pos(), g.MustPassBefore(g.After(cp), rp, isTrim, nil), "the mapped domainpart can end in '.' (from U+3002, U+FF0E, U+FF61 or an empty label): its string form parses to a different address")
